@@ -1,11 +1,14 @@
 (* C08 -- static descriptions of a message agree with its actual encoding.
    PROVED HERE (atomic layer): a successful emplace advances the cursor by exactly
    ceil((bit position + bit length) / 8) bytes, which is the summand of the static
-   length computation (composite_codec_get_static_bit_length).  The message-level
-   statements (static length, constant prefix, required/free) are correspondence
-   + oracle only.  Known finding: condensed bit masks (see known_findings.json). *)
+   length computation (composite_codec_get_static_bit_length).
+   PROVED AT MESSAGE LEVEL (C08_flat_static_length, C08_flat_length_is_static): for
+   messages which are a sequence of standard-length VALUE parameters with implicit
+   positions the static bit length is 8 x the length of every successful encoding.
+   The other message-level statements (other parameter kinds, constant prefix,
+   required/free) are correspondence + oracle only.  Known finding: condensed bit masks (see known_findings.json). *)
 From Coq Require Import ZArith List Bool.
-From OV Require Import Base.Bytes Base.Wire Generated Model.Str Model.Codec Proofs.BytesProofs Proofs.AtomicProofs Proofs.CodecProps.
+From OV Require Import Base.Bytes Base.Wire Generated Model.Str Model.Codec Proofs.BytesProofs Proofs.AtomicProofs Proofs.CodecProps Proofs.FlatProofs.
 Import ListNotations.
 Open Scope Z_scope.
 
@@ -24,3 +27,16 @@ Theorem C08_static_length_of_standard_type : forall bt en hl bl mask,
   static_bits_dct (Std bt en hl bl mask) = Some bl.
 Proof. reflexivity. Qed.
 Print Assumptions C08_static_length_of_standard_type.
+
+Theorem C08_flat_static_length : forall fl,
+  (forall x, In x fl -> 0 < f_bl x) ->
+  static_bits_msg (map mkp fl) = Some (8 * fold_right (fun x a => fbytes x + a) 0 fl).
+Proof. exact flat_static_length. Qed.
+Print Assumptions C08_flat_static_length.
+
+Theorem C08_flat_length_is_static : forall fl vv msg w,
+  (forall x, In x fl -> fits x (vv (fname x))) -> NoDup (map fname fl) ->
+  encode_msg (map mkp fl) None (VDict (fvals vv fl)) = Ok (msg, w) ->
+  static_bits_msg (map mkp fl) = Some (8 * blen msg).
+Proof. exact flat_length_is_static. Qed.
+Print Assumptions C08_flat_length_is_static.
